@@ -328,6 +328,9 @@ impl<T: UciTx, H: Heuristic, M: MoveOrder> Search<T, H, M> {
             {
                 let nodes = self.state.metrics.last.negamax_nodes;
                 let armed = crate::engine::verif::abort_armed_at(nodes);
+                if crate::engine::verif::stop_armed_at(nodes) {
+                    self.flags.stop_as_soon_as_possible = true;
+                }
                 if armed || self.flags.stop_as_soon_as_possible {
                     crate::engine::verif::note_abort(nodes, ply_depth_from_root, max_ply);
                 }
